@@ -61,27 +61,27 @@ CHECKS = {
   "fake signing backend; fixed committee incl. a zero-scaled-power member; concurrent validation: interleaving pass (engine E2) over the source-instrumented caches and the production progress cell — two validators and an evicting / progress-announcing thread, all schedules with <=2 preemptions, plus a free-running race-detector pass", "DESIGN §3 C05"),
  "C13": (True, "valenum", "model_checking",
   "exhaustive enumeration of messages x announced keys x completing chains through the two validation paths, plus cache-history exploration shared between them",
-  "For every message of the C05 space, three announced keys (matching, zero, other) and four completing chains (original, other, bottom, malformed), with the production stripper and with the justification left as sent: PartiallyValidate then FullyValidate accepts iff the key equals the chain's key and one-shot validation of the completed message accepts; strip then complete is the identity on valid messages; partial/full verdicts are independent of earlier validations on the same validator. Every message that passes the partial stage under its genuine key is also completed by a real, started PartialMessageManager on both of its routes (buffered until the chain is discovered; CompleteMessage with the chain already known): same verdict as one-shot validation of the completed message, and the original bytes for valid messages.",
+  "For every message of the C05 space, three announced keys (matching, zero, other) and four completing chains (original, other, bottom, malformed), with the production stripper, with the justification left as sent and with the chain left in the message: PartiallyValidate then FullyValidate accepts iff the key equals the chain's key and one-shot validation of the completed message accepts; strip then complete is the identity on valid messages; partial/full verdicts are independent of earlier validations on the same validator. Every message that passes the partial stage under its genuine key is also completed by a real, started PartialMessageManager on both of its routes (buffered until the chain is discovered; CompleteMessage with the chain already known): same verdict as one-shot validation of the completed message, and the original bytes for valid messages.",
   "as C05; completion by the production inference (injected accessor) and by the production manager over a peerless gossipsub", "DESIGN §3 C13"),
  "C11": (True, "walcrash", "fault_enumeration",
   "exhaustive enumeration of operation histories on the real WAL with every torn-write image of the final append recovered and continued",
   "All sequences over {append small/large, rotate, close, purge, reopen} up to depth 4 (thorough 5) plus long rotating histories run on the real WriteAheadLog; after every step All() must equal the reference list of acknowledged, unpurged entries (nothing else, per-file order), purge must be conservative and complete (directory listing); for every history ending in an append every byte offset of that append is materialised as a torn file, recovered, read, continued with further appends/purge and reopened again.",
-  "a crash tears only the final write; directory entries survive; wall-clock file names are opaque; tmpfs-backed directory", "DESIGN §3 C11"),
+  "a crash tears only the final write; directory entries survive; wall-clock file names are opaque; tmpfs-backed directory; purge running concurrently with append / rotate / read (the node's finalize goroutine vs its runner) is covered by an interleaving pass (engine E2, <=2 preemptions) plus a free-running race-detector pass; thorough tier: shortest histories first under a 40-minute budget", "DESIGN §3 C11"),
  "C12": (True, "equivmc", "model_checking",
   "explicit-state BFS over broadcast/rebroadcast/restart/crash histories on the production runner (filter -> WAL -> publish) with a synchronous wire observer",
-  "Breadth-first search over histories of conflicting broadcast requests (2 instances x 2 senders x slots x 2 signatures), rebroadcast requests, finality certificates arriving (early network: up to instance 3; up to instance 6) through the node's certificate store and handled by the production finalize goroutine, clean restarts, crash-restarts from the WAL image captured at the last publish and crashes in the middle of an append, on the real newRunner/Start/BroadcastMessage/RequestRebroadcast/Stop over a real WAL directory and gossipsub topic. A pubsub default validator observes the wire synchronously inside Publish and snapshots the WAL: never two signatures per (instance, sender, round, step), never an older instance, every wire message already durable. The pure filter is additionally enumerated to depth 6/7 against a reference.",
+  "Breadth-first search over histories of conflicting broadcast requests (2 instances x 2 senders x slots x 2 signatures), rebroadcast requests, finality certificates arriving (early network: up to instance 3; up to instance 6) through the node's certificate store and handled by the production finalize goroutine, clean restarts, crash-restarts from the WAL image captured at the last publish and crashes in the middle of an append, on the real newRunner/Start/BroadcastMessage/RequestRebroadcast/Stop over a real WAL directory and gossipsub topic. A pubsub default validator observes the wire synchronously inside Publish and snapshots the WAL: never two signatures per (instance, sender, round, step), never an older instance, every wire message already durable. Three searches (focused alphabet to depth 7/9; rounds 0..3 of one slot; full alphabet) plus directed histories around a log file that grows past its rotation size. The pure filter is additionally enumerated to depth 6/7 against a reference.",
   "no storage errors, single node per identity; inbound topic validator removed; opaque signatures; mock clock that never advances (the participant stays idle, the harness decides what is broadcast); the finalize goroutine is stepped through ec.Finalize of the harness's EC and the rebroadcast-store mutex; broadcast requests are for instances above the latest certificate", "DESIGN §3 C12"),
  "C16": (True, "certexmc", "model_checking",
   "exhaustive enumeration of (store, request) pairs against the real server read by a raw wire reader, and of all responder scripts up to a depth against the real poller",
-  "Server: every store of length 0..5 (7) at first instance 0 and 5 x every first / limit / power-table combination incl. boundary and overflowing values is served by the real certexchange.Server over mocknet and read both by a raw stream reader (everything on the wire) and by the production client; the response must be the byte-exact store slice, at most limit certificates, none at or beyond the advertised pending instance, the right power table. Poller: every script of up to 2 (3) behaviours out of 12 Byzantine/honest responder behaviours x client/peer holdings: the store must only gain genuine certificates, never beyond the valid in-sequence prefix sent, NextInstance must equal the store, and honest / illegal / lagging peers must be classified as such.",
+  "Server: every store of length 0..5 (7) at first instance 0 and 5 x every first / limit / power-table combination incl. boundary and overflowing values is served by the real certexchange.Server over mocknet and read both by a raw stream reader (everything on the wire) and by the production client; the response must be the byte-exact store slice, at most limit certificates, none at or beyond the advertised pending instance, the right power table. Poller: every script of up to 2 (3) behaviours out of 12 Byzantine/honest responder behaviours x client/peer holdings (incl. certificates gained locally before the poll and while the request is in flight), each followed by a poll of an honest peer: the store must only gain genuine certificates, never beyond the valid in-sequence prefix sent, NextInstance must equal the store, and honest / illegal / lagging peers must be classified as such.",
   "mocknet; fake signing; poller driven through its public API", "DESIGN §3 C16"),
  "C20": (True, "pollmc", "model_checking",
   "exhaustive enumeration of per-tick production patterns on the production polling loop under a mock clock, with a reference predictor",
-  "The real Subscriber.run goroutine is driven tick by tick under a mock clock (handshake through the gauge it records right after re-arming its timer): every sequence of 3 (4) ticks over {0,1,2,5 certificates} x {local, via peer} x request time {0, 1/4, 1 interval} plus failing peers, for three (min, initial, max) settings and 1-2 peers; a polling round must report exactly the store advance, and the wait must be the predicted interval (independent predictor fed with the true advance) extended by at most the request time and half the interval; long steady / bursty / stalled runs must settle near the production period and never pin to min or max.",
+  "The real Subscriber.run goroutine is driven tick by tick under a mock clock (handshake through the gauge it records right after re-arming its timer): every sequence of 3 (4) ticks over {0,1,2,5 certificates} x {local, via peer} x request time {0, 1/4, 1 interval} plus failing peers, for three (min, initial, max) settings and 1-2 peers; a polling round must report exactly the store advance, and the wait must be the predicted interval (independent predictor fed with the true advance) extended by at most the request time and half the interval; long steady / bursty / stalled runs must settle near the production period and never pin to min or max, also with one up-to-date peer among 40 useless ones (known from the start or discovered later); the production Start with real peer discovery against a real server must keep fetching after its start context ends.",
   "mocknet + mock clock; unexported run/poll reached through an injected accessor; reference predictor mirrors predictor.go", "DESIGN §3 C20"),
  "C18": (True, "chainexmc", "model_checking",
   "explicit-state BFS over lookup / broadcast / flood / prune histories on the real chain exchange with property-level monitors",
-  "Breadth-first search to depth 5 (thorough 7) over histories of lookups, own broadcasts, admitted remote broadcasts, remote broadcasts rejected for every reason in the statement, floods of capacity+1 unsolicited chains, prunes and a progress change on the real PubSubChainExchange (validator and caching routines called synchronously), deduplicated on both LRU caches in order: a lookup never returns a chain with another key or an unadmitted/pruned chain, every prefix is retrievable right after admission, inadmissible broadcasts are never admitted, an asked-for chain that was admitted survives floods while the wanted capacity holds, pruning removes exactly the lower instances.",
+  "Breadth-first search to depth 5 (thorough 7) over histories of lookups, own broadcasts, admitted remote broadcasts, remote broadcasts rejected for every reason in the statement, floods of capacity+1 unsolicited chains, prunes and a progress change on the real PubSubChainExchange (validator and caching routines called synchronously), deduplicated on both LRU caches in order: a lookup never returns a chain with another key or an unadmitted/pruned chain, every prefix is retrievable right after admission, inadmissible broadcasts are never admitted, an asked-for chain that was admitted survives floods while the wanted capacity holds, pruning removes exactly the lower instances. The started service is also run end to end (own / remote broadcast in both orders, start context cancelled or kept).",
   "no network: validator and caching routines driven through an injected accessor; the lookup-vs-admit-vs-own-broadcast interleavings are decided by the interleaving pass (engine E2, <=2 preemptions) plus a free-running race-detector pass; mock clock", "DESIGN §3 C18"),
  "C14": (True, "encenum", "exploration",
   "bounded-exhaustive enumeration of single-field perturbations of signed payloads for every chain length, and of all truncations / small byte deviations of valid encodings of every codec type",
